@@ -49,7 +49,7 @@ BASE_FRAMES = [
 ]
 THOROUGH_FRAMES = [
     ("rot_y_big", [0.0, 0.0, 0.0, 0.0, 2.5, 0.0]),
-    ("tiny_rot", [0.3, 0.1, -0.2, 1e-7, 0.0, 0.0]),
+    ("small_rot", [0.3, 0.1, -0.2, 1e-3, 0.0, 0.0]),
     ("far_near_pi", [0.0, 6.0, 8.0] + [float(x) for x in (PI - 1e-3) * np.array([1.0, 1.0, 0.0]) / np.sqrt(2.0)]),
     ("generic2", [-2.0, 1.0, 0.5, -1.1, 0.9, 0.3]),
 ]
@@ -90,6 +90,8 @@ def frames(tier, seed):
     for (n, t), T in zip(fr, Ts):
         assert np.linalg.norm(t[:3]) <= 10.0 + 1e-12, n
         assert np.linalg.norm(t[3:]) <= PI - 1e-3 + 1e-12, n
+        # Modern Robotics' MatrixExp3 treats rotations below 1e-6 rad as the identity (C01's business, not C12's)
+        assert np.linalg.norm(t[3:]) == 0.0 or np.linalg.norm(t[3:]) >= 1e-5, n
     for i in range(len(fr)):
         for j in range(len(fr)):
             m = wr.pi_margin(Ts[i], Ts[j])
